@@ -64,6 +64,17 @@ func multiMembers() []multiMember {
 			orders: [][]string{{"a.json", "b.json"}},
 			outOf:  map[string]string{"a.json": "pa/a.go", "b.json": "pb/b.go"}, pkgOf: map[string]string{"pa/a.go": "example.com/gen/pa", "pb/b.go": "example.com/gen/pb"}})
 	}
+	// a local definition with a property of the other package, used directly and again as an allOf branch: the second visit of the
+	// property node must still name the other package
+	{
+		baseDef := objSpec(&fam.Prop{Label: "item", Spec: x("b.json")}, &fam.Prop{Label: "flag", Spec: &fam.Spec{Kind: "boolean"}, Required: true})
+		baseDef.Ref = "$defs"
+		comp := &fam.Spec{Kind: "object", AllOf: []*fam.Spec{baseDef, objSpec(&fam.Prop{Label: "extra", Spec: &fam.Spec{Kind: "string"}})}}
+		fa := &fam.FileSpec{Name: "a.json", ID: "https://example.com/a", Root: objSpec(&fam.Prop{Label: "b", Spec: baseDef}, &fam.Prop{Label: "d", Spec: comp})}
+		out = append(out, multiMember{name: "a definition with a cross-package property, also used as an allOf branch", files: []*fam.FileSpec{fa, mkB()}, cfg: two,
+			orders: [][]string{{"a.json", "b.json"}, {"b.json", "a.json"}},
+			outOf:  map[string]string{"a.json": "pa/a.go", "b.json": "pb/b.go"}, pkgOf: map[string]string{"pa/a.go": "example.com/gen/pa", "pb/b.go": "example.com/gen/pb"}})
+	}
 	// one package, two output files
 	same := base
 	same.Mappings = []gen.Mapping{{ID: "https://example.com/a", Package: "example.com/gen/model", Output: "model/a.go"}, {ID: "https://example.com/b", Package: "example.com/gen/model", Output: "model/b.go"}}
@@ -552,21 +563,40 @@ func checkRouting(mm multiMember, w *fam.MultiWorld, args []string) []fam.Issue 
 }
 
 // sameFileView is the spec without the properties that refer into another file (those are checked where their target lands).
-func sameFileView(s *fam.Spec) *fam.Spec {
+func sameFileView(s *fam.Spec) *fam.Spec { return sameFileViewMemo(s, map[*fam.Spec]*fam.Spec{}) }
+
+// shared specs (one definition referenced from two places) stay shared in the view
+func sameFileViewMemo(s *fam.Spec, seen map[*fam.Spec]*fam.Spec) *fam.Spec {
 	if s == nil {
 		return nil
 	}
+	if v, ok := seen[s]; ok {
+		return v
+	}
 	c := *s
+	seen[s] = &c
 	c.Props = nil
 	for _, p := range s.Props {
 		if crossFile(p.Spec) {
 			continue
 		}
 		np := *p
-		np.Spec = sameFileView(p.Spec)
+		np.Spec = sameFileViewMemo(p.Spec, seen)
 		c.Props = append(c.Props, &np)
 	}
-	c.Items = sameFileView(s.Items)
+	c.Items = sameFileViewMemo(s.Items, seen)
+	if len(s.AllOf) > 0 {
+		c.AllOf = nil
+		for _, b := range s.AllOf {
+			c.AllOf = append(c.AllOf, sameFileViewMemo(b, seen))
+		}
+	}
+	if len(s.AnyOf) > 0 {
+		c.AnyOf = nil
+		for _, b := range s.AnyOf {
+			c.AnyOf = append(c.AnyOf, sameFileViewMemo(b, seen))
+		}
+	}
 	return &c
 }
 
